@@ -10,6 +10,7 @@ C03 - what is documented in each namespace is what Python defines there.  Claime
   R03.8 sibling variable handlers: an attribute found without a kind gets one
   R03.9 every name-binding target form of an assignment is taken apart (Tuple, List, Starred, nested)
   R03.10 x = wrapper(x) changes a kind only for the same name; no alias for a documented name
+  R03.11 the pending attribute-docstring target is cleared when a property has been handled
 Does not decide: the differential statement against the interpreter (members, docstrings, kinds for every program).
 """
 from __future__ import annotations
@@ -414,6 +415,7 @@ def run(repo: Repo, chk: Check, thorough: bool = False) -> None:
                va.loc)
     chk.require('R03.9', 3)
 
+    check_r03_11(repo, chk)
     # ------------------------------------------------------------------ R03.10
     # `x = staticmethod(x)` changes the kind of x only when the wrapped name is the name assigned to: `create = staticmethod(make)` binds a NEW
     # name and leaves `make` a plain function
@@ -450,3 +452,28 @@ def run(repo: Repo, chk: Check, thorough: bool = False) -> None:
                'earlier assignment, the attribute docstring that follows is lost', repo.loc(ha.mod, st_))
     chk.require('R03.10', 3)
 
+
+
+def check_r03_11(repo: Repo, chk: Check) -> None:
+    # a string literal that follows an assignment documents that attribute: the builder remembers the attribute in `currentAttr`.  A property is created
+    # through addAttribute (which sets currentAttr) and its def is then skipped (SkipNode): nothing else clears the pointer, so a later string statement
+    # - a banner comment written as a string - would replace (or invent) the property's docstring.  Python keeps fget.__doc__
+    hf = repo.func(f'{MV}._handleFunctionDef')
+    cfg = CFG(hf)
+    props = [c for c in calls_in(hf) if call_name(c) == '_handlePropertyDef']
+    if not props:
+        raise AnalysisError('R03.11: _handleFunctionDef no longer calls _handlePropertyDef')
+    callee = repo.funcs.get(f'{MV}._handlePropertyDef')
+    def clears(f: Func) -> List[ast.stmt]:
+        return [n for n in f.walk() if isinstance(n, ast.Assign) and any(isinstance(t, ast.Attribute) and t.attr == 'currentAttr' for t in n.targets) and
+                isinstance(n.value, ast.Constant) and n.value.value is None]
+    for c in props:
+        exits = [n for n in hf.walk() if isinstance(n, ast.Raise) and id(n) in cfg.reachable(cfg.stmt_of(c), no_exc=True)]
+        cl = clears(hf)
+        # either the callee clears it itself (last thing it does), or every path from the call to the SkipNode passes a clearing statement
+        ok = bool(callee is not None and clears(callee)) or (bool(exits) and bool(cl) and all(cfg.must_pass(cfg.stmt_of(c), e, cl, no_exc=True) for e in exits))
+        chk.ob('R03.11', f'{MV}._handleFunctionDef :: the attribute-docstring target is cleared after a property', ok,
+               '`currentAttr = None` on every path from _handlePropertyDef to the SkipNode' if ok else
+               'the property created by _handlePropertyDef stays the target of attribute docstrings: a string statement after the property (even inside a later '
+               '`if` block) replaces its docstring, or invents one for an undocumented property', repo.loc(hf.mod, c))
+    chk.require('R03.11', 1)
